@@ -79,6 +79,10 @@ type PropDef struct {
 	Post func(c *Ctx)
 	// IgnorePanics: task panics are not violations by themselves.
 	IgnorePanics bool
+	// OverrunSig: if set, exhausting the step budget (Config.MaxSteps) is a violation with
+	// this signature instead of a harness error. Only for properties whose statement forbids
+	// unbounded work on bounded input (C15); the step count is deterministic, so it replays.
+	OverrunSig string
 	// Rule describes generation and what makes a case non-trivial (for evidence).
 	Rule string
 	// Real / Stub components (for evidence).
@@ -142,7 +146,13 @@ func execute(p *PropDef, tape *simrt.Tape, tier, variant string) *Outcome {
 		out.HarnessErr = res.HarnessEr
 	}
 	if res.Overrun {
-		out.HarnessErr = "step budget exceeded (possible livelock)"
+		if p.OverrunSig != "" {
+			if !c.Failed() { // the scenario may already have reported it with more detail
+				c.Fail(p.OverrunSig, "the step budget of the run was exhausted: some node task kept running without ever blocking (steps %d)", res.Steps)
+			}
+		} else {
+			out.HarnessErr = "step budget exceeded (possible livelock)"
+		}
 	}
 	if !p.IgnorePanics {
 		for _, pn := range res.Panics {
